@@ -31,7 +31,7 @@ func (p *c12) Exhaustive() bool { return true }
 
 // template names; "" kinds are inline sources run through the string loader
 var c12Names = []string{"t.html", "t.html.twig", "t.js", "t.js.twig", "t.css", "t.txt", "t", "t.twig", "t.xml", "t.foo.twig", "t.url", "t.html_attr",
-	"a.b/c", "dir.d/page", "t.HTML", "t.json", "t.txt.twig", "inline:plain", "inline:dot", "inline:dotmid", "inline:ends-txt", "inline:ends-js", "inline:ends-css-twig"}
+	"a.b/c", "dir.d/page", "t.HTML", "t.json", "t.txt.twig", "app.min.js", "app.bundle.js.twig", "theme.dark.css", "notes.2024.txt.twig", "v1.2/page", "lib.js/readme", "inline:plain", "inline:dot", "inline:dotmid", "inline:ends-txt", "inline:ends-js", "inline:ends-css-twig"}
 
 var c12Payloads = []string{
 	"<script>alert(1)</script>", "' onmouseover='alert(1)", "\"", "&amp; & &lt;", "</style><b>", "a b", "javascript:alert(1)//", "é😀<i>", "plain", "x;y(z)=1/2\\3\n4",
@@ -214,6 +214,12 @@ var c12Constructs = []c12construct{
 	{"filter-result", false, func(m, h string) (map[string]string, []c12site) {
 		return one(m, "[1:{{ x|upper }}][2:{{ u|default(x) }}][3:{{ x|trim }}]",
 			c12site{id: "1", direct: true, value: strings.ToUpper}, c12site{id: "2", direct: true}, c12site{id: "3", direct: true, value: strings.TrimSpace})
+	}},
+	{"payload-as-filter-argument", false, func(m, h string) (map[string]string, []c12site) {
+		// the subject is safe, what the filter works in is not: the result is data again
+		return one(m, "[1:{{ 'a-N-b'|raw|replace({'N': x}) }}][2:{{ ['a', 'b']|join(x) }}][3:{{ 'a-N-b'|escape|replace({'N': x}) }}][4:{{ u|default(x)|upper }}]",
+			c12site{id: "1", direct: true, value: func(p string) string { return "a-" + p + "-b" }}, c12site{id: "2", direct: true, value: func(p string) string { return "a" + p + "b" }},
+			c12site{id: "3", direct: true, value: func(p string) string { return "a-" + p + "-b" }}, c12site{id: "4", direct: true, value: strings.ToUpper})
 	}},
 	{"raw", false, func(m, h string) (map[string]string, []c12site) {
 		return one(m, "[1:{{ x|raw }}]", c12site{id: "1", direct: true, raw: true})
